@@ -376,7 +376,7 @@ pub fn run(ctx: &Ctx) -> i32 {
     }
     ctx.finish(
         "model_checking",
-        vec![s, generated_keys(ctx), large_headers(ctx, &env)],
+        vec![s, generated_keys(ctx), large_headers(ctx, &env), layouts(ctx, &env), key_files(ctx, &env)],
         &[
             "all four signers are deterministic for a fixed timestamp, so equal histories give equal bytes and the graph closes; the result then holds for histories of any length over this alphabet",
             "every transition is a call of the real API (no separate model to validate): traces_validated_against_impl = transitions",
@@ -394,28 +394,16 @@ pub fn run(ctx: &Ctx) -> i32 {
 
 /// Keys generated by the harness (deterministic seeds): the reported key id must be the full 16 hex digits whatever
 /// digits it starts with, a package signed with such a key verifies with it and with no other.
-/// Packages whose main header is large (a signer or verifier that reads the data in pieces, or only up to a limit, shows here):
-/// sign, write + parse, sign with another key, clear — judged after every step like the histories.
-fn large_headers(ctx: &Ctx, env: &Env) -> SubReport {
-    let mut sizes: Vec<usize> = vec![(1 << 16) + 100, (1 << 20) + 100, (16 << 20) - 4096, (16 << 20) + 4096, (32 << 20) + 4096];
-    if ctx.thorough() {
-        sizes.extend([(8 << 20) + 4096, (64 << 20) + 4096, (128 << 20) + 4096]);
-    }
+/// One fixed history — sign(ed25519), write + parse, sign(ecdsa-p256), write + parse, clear, write + parse — judged after every
+/// step like the states of the search: verifies with exactly the last signer's key, digests verify, header and payload unchanged.
+fn linear_history(sub: &str, ctx: &Ctx, env: &Env, start: &rpm::Package, rank0: u64, case: &dyn Fn(&str) -> Value, acc: &mut Acc) {
     let (ka, kb) = (Key::Ed25519, Key::EcdsaP256);
-    let accs = vlib::par::par_fold(sizes.len() as u64, Acc::new, |i, acc| {
-        let n = sizes[i as usize];
-        let case = |step: &str| json!({"package": format!("no files, description of {} bytes (main header > {} MiB)", n, n >> 20), "history_up_to": step});
-        let built = catch(|| rpm::PackageBuilder::new("big", "1", "MIT", "noarch", "s").description("d".repeat(n)).compression(rpm::CompressionType::None).source_date(1_600_000_000u32).build());
-        let start = match built {
-            Ok(Ok(p)) => p,
-            _ => return acc.count("package does not build (not judged)"),
-        };
         let b0 = bytes_of(&start);
         let Some((_, _, _, l0)) = vlib::refhdr::scan(&b0) else { return acc.count("not scanned") };
         let rest0 = Sha256::digest(&b0[l0.hdr_off..]).to_vec();
         let mut p = start.clone();
         let mut last: Option<Key> = None;
-        for (k, step) in ["sign(ed25519)", "write + parse", "sign(ecdsa-p256)", "write + parse", "clear"].iter().enumerate() {
+        for (k, step) in ["sign(ed25519)", "write + parse", "sign(ecdsa-p256)", "write + parse", "clear", "write + parse"].iter().enumerate() {
             acc.evals += 1;
             let r = catch(|| match *step {
                 "sign(ed25519)" => p.sign_with_timestamp(env.signer(ka), 1_600_000_000u32),
@@ -427,10 +415,10 @@ fn large_headers(ctx: &Ctx, env: &Env) -> SubReport {
                     Ok(())
                 }
             });
-            let rank = i * 10 + k as u64;
+            let rank = rank0 + k as u64;
             match r {
-                Err(pn) => return acc.viol(panic_violation("large-headers", &pn, case(step)).rank(rank)),
-                Ok(Err(e)) => return acc.viol(Violation::new("large-headers", format!("{} fails: {}", step, e), case(step)).sig("clause", "operation-fails").rank(rank)),
+                Err(pn) => return acc.viol(panic_violation(sub, &pn, case(step)).rank(rank)),
+                Ok(Err(e)) => return acc.viol(Violation::new(sub, format!("{} fails: {}", step, e), case(step)).sig("clause", "operation-fails").rank(rank)),
                 Ok(Ok(())) => {}
             }
             match *step {
@@ -444,25 +432,136 @@ fn large_headers(ctx: &Ctx, env: &Env) -> SubReport {
                 let ok = catch(|| p.verify_signature(key.verifier(&ctx.repo))).map(|r| r.is_ok()).unwrap_or(false);
                 if ok != (last == Some(key)) {
                     acc.viol(
-                        Violation::new("large-headers", format!("after {}: verify_signature with {} = {}, last signer = {:?}", step, key.name(), ok, last.map(|k| k.name())), case(step))
+                        Violation::new(sub, format!("after {}: verify_signature with {} = {}, last signer = {:?}", step, key.name(), ok, last.map(|k| k.name())), case(step))
                             .sig("clause", if ok { "other-key-verifies" } else { "last-signer-does-not-verify" })
                             .rank(rank),
                     );
                 }
             }
             if catch(|| p.verify_digests()).map(|r| r.is_ok()).unwrap_or(false) == false {
-                acc.viol(Violation::new("large-headers", format!("after {}: the digests do not verify", step), case(step)).sig("clause", "digests").rank(rank));
+                acc.viol(Violation::new(sub, format!("after {}: the digests do not verify", step), case(step)).sig("clause", "digests").rank(rank));
             }
             let b = bytes_of(&p);
             match vlib::refhdr::scan(&b) {
                 Some((_, _, _, l)) if Sha256::digest(&b[l.hdr_off..]).to_vec() == rest0 => {}
-                _ => acc.viol(Violation::new("large-headers", format!("after {}: main header and payload are not the bytes of the starting package", step), case(step)).sig("clause", "header-payload-changed").rank(rank)),
+                _ => acc.viol(Violation::new(sub, format!("after {}: main header and payload are not the bytes of the starting package", step), case(step)).sig("clause", "header-payload-changed").rank(rank)),
             }
         }
+}
+
+/// Packages whose main header is large (a signer or verifier that reads the data in pieces, or only up to a limit, shows here):
+/// sign, write + parse, sign with another key, clear — judged after every step like the histories.
+fn large_headers(ctx: &Ctx, env: &Env) -> SubReport {
+    let mut sizes: Vec<usize> = vec![(1 << 16) + 100, (1 << 20) + 100, (16 << 20) - 4096, (16 << 20) + 4096, (32 << 20) + 4096];
+    if ctx.thorough() {
+        sizes.extend([(8 << 20) + 4096, (64 << 20) + 4096, (128 << 20) + 4096]);
+    }
+    let accs = vlib::par::par_fold(sizes.len() as u64, Acc::new, |i, acc| {
+        let n = sizes[i as usize];
+        let case = |step: &str| json!({"package": format!("no files, description of {} bytes (main header > {} MiB)", n, n >> 20), "history_up_to": step});
+        let built = catch(|| rpm::PackageBuilder::new("big", "1", "MIT", "noarch", "s").description("d".repeat(n)).compression(rpm::CompressionType::None).source_date(1_600_000_000u32).build());
+        let start = match built {
+            Ok(Ok(p)) => p,
+            _ => return acc.count("package does not build (not judged)"),
+        };
+        linear_history("large-headers", ctx, env, &start, i * 10, &case, acc);
         acc.count(&format!("main header of {} MiB and more", n >> 20));
     });
     let acc = Acc::merge_all(accs);
-    SubReport::new("large-headers", "A", &format!("packages without files whose description has {:?} bytes (main headers up to and beyond 16 MiB and 32 MiB): after each step of sign(ed25519), write + parse, sign(ecdsa-p256), write + parse, clear: verifies with exactly the last signer's key, digests verify, main header and payload byte-identical to the start", sizes), acc)
+    SubReport::new("large-headers", "A", &format!("packages without files whose description has {:?} bytes (main headers up to and beyond 16 MiB and 32 MiB): after each step of sign(ed25519), write + parse, sign(ecdsa-p256), write + parse, clear, write + parse: verifies with exactly the last signer's key, digests verify, main header and payload byte-identical to the start", sizes), acc)
+}
+
+/// Key files that hold more than one certificate: a verifier loaded from such a file stands for ONE key (the first
+/// certificate, as `Signer::load_from_asc_bytes` of the matching secret file does); signatures of the other certificates
+/// in the file are another key's signatures.
+fn key_files(ctx: &Ctx, env: &Env) -> SubReport {
+    use pgp::composed::Deserializable;
+    use pgp::types::PublicKeyTrait;
+    let mut acc = Acc::new();
+    let pkg = crate::corpus::one_file().build(env).unwrap_or_else(|e| crate::ctx::machinery(&format!("c10 key files: {}", e)));
+    let mut rank = 0u64;
+    for key in ALL_KEYS {
+        let path = ctx.repo.join("tests/assets/signing_keys").join(key.files().0);
+        let raw = std::fs::read_to_string(&path).unwrap_or_else(|e| crate::ctx::machinery(&format!("{}: {}", path.display(), e)));
+        let certs: Vec<pgp::SignedSecretKey> = match pgp::SignedSecretKey::from_armor_many(std::io::Cursor::new(raw.as_bytes())) {
+            Ok((it, _)) => it.filter_map(|k| k.ok()).collect(),
+            Err(e) => crate::ctx::machinery(&format!("{}: {}", path.display(), e)),
+        };
+        let verifier_id = key.key_id(&ctx.repo);
+        acc.count(&format!("{} certificate(s) in a key file", certs.len()));
+        for (idx, ssk) in certs.into_iter().enumerate() {
+            rank += 1;
+            acc.evals += 1;
+            let id = hex::encode(ssk.key_id().as_ref());
+            let case = || json!({"secret_key_file": key.files().0, "certificate_index": idx, "signing_key_id": id, "verifier": format!("loaded from {} (key id {})", key.files().1, verifier_id)});
+            let signer = match rpm::signature::pgp::Signer::new(ssk) {
+                Ok(s) => if key == Key::Rsa3072Protected { s.with_key_passphrase("thisisN0Tasecuredpassphrase") } else { s },
+                Err(e) => {
+                    acc.count(&format!("certificate not usable as a signer: {}", e).chars().take(70).collect::<String>());
+                    continue;
+                }
+            };
+            let mut p = pkg.clone();
+            match catch(|| p.sign_with_timestamp(&signer, 1_600_000_000u32)) {
+                Err(pn) => {
+                    acc.viol(panic_violation("key-files", &pn, case()).rank(rank));
+                    continue;
+                }
+                Ok(Err(e)) => {
+                    acc.count(&format!("signing fails: {}", e).chars().take(70).collect::<String>());
+                    continue;
+                }
+                Ok(Ok(())) => {}
+            }
+            let b = bytes_of(&p);
+            let Ok(q) = rpm::Package::parse(&mut &b[..]) else { continue };
+            acc.nontrivial += 1;
+            let ok = catch(|| q.verify_signature(key.verifier(&ctx.repo))).map(|r| r.is_ok()).unwrap_or(false);
+            let want = id == verifier_id;
+            acc.count(if want { "signed by the verifier's own key" } else { "signed by another certificate of the same file" });
+            if ok != want {
+                acc.viol(
+                    Violation::new("key-files", format!("signed by certificate {} (key id {}) of {}; the verifier stands for key id {}; verify_signature = {}", idx, id, key.files().0, verifier_id, ok), case())
+                        .sig("clause", if ok { "other-key-verifies" } else { "last-signer-does-not-verify" })
+                        .rank(rank),
+                );
+            }
+            // and no other standard key verifies it
+            for other in ALL_KEYS.iter().filter(|o| **o != key) {
+                if catch(|| q.verify_signature(other.verifier(&ctx.repo))).map(|r| r.is_ok()).unwrap_or(false) {
+                    acc.viol(Violation::new("key-files", format!("signed by key id {}, verifies with the {} key", id, other.name()), case()).sig("clause", "other-key-verifies").rank(rank));
+                }
+            }
+        }
+    }
+    SubReport::new("key-files", "A", "every certificate of every secret key file of the five standard keys (one of the files holds two) as a signer of a built package: the package verifies with the verifier loaded from the matching public file exactly when the signing key is the one that verifier stands for (its first certificate), and with no other standard key", acc)
+}
+
+/// Every payload layout the builder can produce, through the same history.
+fn layouts(ctx: &Ctx, env: &Env) -> SubReport {
+    let mut specs: Vec<BuildSpec> = vec![];
+    for base in [BuildSpec::minimal(), crate::corpus::one_file(), crate::corpus::rich()] {
+        for comp in [Comp::None, Comp::Gzip(1), Comp::Zstd(1), Comp::Xz(0), Comp::Default] {
+            for large in [false, true] {
+                let mut s = base.clone();
+                s.compression = comp.clone();
+                s.large_files = large;
+                specs.push(s);
+            }
+        }
+    }
+    let accs = vlib::par::par_fold(specs.len() as u64, Acc::new, |i, acc| {
+        let spec = &specs[i as usize];
+        let case = |step: &str| json!({"package": spec.to_json(), "history_up_to": step});
+        match catch(|| spec.build(env)) {
+            Ok(Ok(p)) => {
+                linear_history("layouts", ctx, env, &p, i * 10, &case, acc);
+                acc.count(&format!("{:?} {}", spec.compression.name().unwrap_or("none"), if spec.large_files { "large-file layout" } else { "ordinary layout" }));
+            }
+            _ => crate::ctx::machinery("c10 layouts: a start package does not build"),
+        }
+    });
+    SubReport::new("layouts", "A", "30 start packages = {no files, one file, the rich configuration} × {uncompressed, gzip, zstd, xz, default} × {ordinary, forced large-file layout}: after each step of sign(ed25519), write + parse, sign(ecdsa-p256), write + parse, clear, write + parse: verifies with exactly the last signer's key, digests verify, main header and payload byte-identical to the start", Acc::merge_all(accs))
 }
 
 fn generated_keys(ctx: &Ctx) -> SubReport {
